@@ -204,6 +204,41 @@ func (c *Ctx) oblige(kind string, pc, goal *Term, pos token.Position, detail str
 	return o
 }
 
+// splitGoal turns A => (B and C) / (B and C) into separate goals (smaller queries discharge
+// far more reliably than one conjunction).
+func splitGoal(t *Term) []*Term {
+	if t.Binder == "" && t.Op == "and" && len(t.Args) > 1 {
+		var out []*Term
+		for _, a := range t.Args {
+			out = append(out, splitGoal(a)...)
+		}
+		return out
+	}
+	if t.Binder == "" && t.Op == "=>" && len(t.Args) == 2 {
+		parts := splitGoal(t.Args[1])
+		if len(parts) > 1 {
+			var out []*Term
+			for _, p := range parts {
+				out = append(out, Implies(t.Args[0], p))
+			}
+			return out
+		}
+	}
+	return []*Term{t}
+}
+
+// obligeSplit records one obligation per conjunct of the goal (name.1, name.2, ...).
+func (c *Ctx) obligeSplit(name, kind string, pc, goal *Term, pos token.Position, detail string) {
+	parts := splitGoal(goal)
+	if len(parts) == 1 {
+		c.obligeNamed(name, kind, pc, goal, pos, detail)
+		return
+	}
+	for i, p := range parts {
+		c.obligeNamed(fmt.Sprintf("%s/%d", name, i+1), kind, pc, p, pos, detail)
+	}
+}
+
 // named obligation (explicit name instead of ordinal)
 func (c *Ctx) obligeNamed(name, kind string, pc, goal *Term, pos token.Position, detail string) *Obligation {
 	o := c.oblige(kind, pc, goal, pos, detail)
